@@ -320,24 +320,24 @@ impl FieldParser {
         i: &[u8],
         template: T,
     ) -> IResult<&[u8], Vec<BTreeMap<usize, IPFixFieldPair>>> {
-        // If no fields there are no fields to parse, return an error.
-        let (remaining, mut fields, total_taken) =
-            template.get_fields().iter().enumerate().try_fold(
-                (i, vec![], 0usize),
-                |(remaining, mut fields, total_taken), (c, field)| {
-                    let mut data_field = BTreeMap::new();
-                    let (i, field_value) = field.parse_as_field_value(remaining)?;
-                    let taken = remaining.len().saturating_sub(i.len());
-                    data_field.insert(c, (field.field_type, field_value));
-                    fields.push(data_field);
-                    Ok((i, fields, total_taken.saturating_add(taken)))
-                },
-            )?;
-
-        if remaining.len() >= total_taken {
-            let (remaining, more) = Self::parse(remaining, template)?;
-            fields.extend(more);
-            return Ok((remaining, fields));
+        // Decode record after record in a loop (one stack frame however many records the set
+        // holds), for as long as at least one more record of the size just read can follow.
+        let mut remaining = i;
+        let mut fields = vec![];
+        loop {
+            let mut total_taken = 0usize;
+            for (c, field) in template.get_fields().iter().enumerate() {
+                let mut data_field = BTreeMap::new();
+                let (i, field_value) = field.parse_as_field_value(remaining)?;
+                let taken = remaining.len().saturating_sub(i.len());
+                data_field.insert(c, (field.field_type, field_value));
+                fields.push(data_field);
+                total_taken = total_taken.saturating_add(taken);
+                remaining = i;
+            }
+            if total_taken == 0 || remaining.len() < total_taken {
+                break;
+            }
         }
 
         Ok((remaining, fields))
